@@ -145,6 +145,8 @@ def gen_case(r, n=None, dims=(1, 1, 2, 2, 3, 4, 5), exact_only=False, spec=None,
         case["fresh_holder"] = True     # the objective returns a NEW value holder instead of filling in the one it was given
     if r.random() < 0.04:
         case["discrete"] = r.choice((1, 2))   # the problem declares discrete parameters (ignored by this solver version)
+    if r.random() < 0.06:
+        case["ev_probe"] = r.choice(("inverse", "both"))    # the solver's evolvent is queried by the caller between the calls
     if r.random() < 0.08:
         nb = r.choice((1, 2, 3))
         blo, bhi = gen_box(r, nb)
@@ -272,6 +274,16 @@ class Run:
         return {"x": x, "xl": xl, "xr": xr, "width": xr - xl, "tiny": (xr - xl) <= 1e-12 * max(1.0, abs(xr))}
 
     def _bg_step(self):
+        if self.case.get("ev_probe"):
+            # the caller queries the solver's own evolvent between the calls (queries are pure: C17), e.g. to locate a known point
+            try:
+                ev = self.solver.evolvent
+                mid = [l + 0.37 * (u - l) for l, u in zip(self.lower, self.upper)]
+                ev.GetInverseImage(np.array(mid, dtype=np.double))
+                if self.case["ev_probe"] == "both":
+                    ev.GetImage(0.61)
+            except Exception:      # noqa: BLE001
+                pass
         if self.bg is not None and self.bg_steps < 400:
             self.bg_steps += 1
             try:
